@@ -596,6 +596,29 @@ func Explain(sp *spec.Spec, m *spec.Method, sent any) []string {
 				tags["body-attr-absent"] = true
 			}
 		}
+		// a required map-typed query parameter is absent while the query string carries other parameters: the
+		// generated decoder tests whether the WHOLE query string is empty (listed finding)
+		if prt, _ := sp.Resolve(m.Payload.Type); prt != nil && prt.Kind == spec.Object && so != nil {
+			others := 0
+			var absentMaps []string
+			for _, l := range h.Query {
+				a := prt.Attr(l.Attr)
+				if a == nil {
+					continue
+				}
+				v, present := so[l.Attr]
+				if present && v != nil && !vtree.Empty(vtree.Norm(v)) {
+					others++
+					continue
+				}
+				if at, _ := sp.Resolve(a.Type); at != nil && at.Kind == spec.Map && prt.IsRequired(l.Attr) {
+					absentMaps = append(absentMaps, l.Attr)
+				}
+			}
+			if len(absentMaps) > 0 && others > 0 {
+				tags["required-query-map-absent"] = true
+			}
+		}
 	}
 	var walk func(t *spec.Type, v any, depth int)
 	walk = func(t *spec.Type, v any, depth int) {
